@@ -321,6 +321,24 @@ func transformCases() []transformCase {
 			r, g, b, a := c.RGBA()
 			return color.RGBA64{uint16(a - r), uint16((g * 7) % (a + 1)), uint16(b / 2), uint16(a)}
 		},
+		// a transform that looks at the colour value it is given (straight-alpha aware): it must receive what the
+		// source's At returns, not a converted copy
+		func(c color.Color) color.RGBA64 {
+			switch v := c.(type) {
+			case color.NRGBA:
+				return color.RGBA64{uint16(v.R) * 257, uint16(v.G) * 257, uint16(v.B) * 257, uint16(v.A) * 257}
+			case color.NRGBA64:
+				return color.RGBA64{v.R, v.G, v.B, v.A}
+			case color.Gray:
+				return color.RGBA64{uint16(v.Y), 1, 2, 0xffff}
+			case color.YCbCr:
+				return color.RGBA64{uint16(v.Y) << 8, uint16(v.Cb) << 8, uint16(v.Cr) << 8, 0xffff}
+			case color.CMYK:
+				return color.RGBA64{uint16(v.C) << 8, uint16(v.M) << 8, uint16(v.Y)<<8 | uint16(v.K), 0xffff}
+			}
+			r, g, b, a := c.RGBA()
+			return color.RGBA64{uint16(r), uint16(g), uint16(b), uint16(a)}
+		},
 	}
 	for i, f := range syn {
 		f := f
